@@ -357,7 +357,8 @@ def build(tier, seed):
     plan.add(ob("C60/classical_shadow:ClassicalShadowMP.process_state_with_shots/documented-form[sampled]", device_form, (MFILE, "ClassicalShadowMP.process_state_with_shots"),
                 "bits and recipes: shape (2,T,n), int8, {0,1} / {0,1,2}, recipes reproducible from the seed", bounded=True))
 
-    def device_statistics():
+    def device_statistics(ws):
+        """ws: the wires handed to classical_shadow, in that order (column i of bits / recipes belongs to wire ws[i])"""
         T = 30000
         dev = qp.device("default.qubit", wires=2, seed=seed + 5)
 
@@ -369,14 +370,20 @@ def build(tier, seed):
 
         def circ():
             prep()
-            return qp.classical_shadow(wires=[0, 1], seed=seed + 9)
+            return qp.classical_shadow(wires=list(ws), seed=seed + 9)
         bits, recipes = qp.set_shots(T)(qp.QNode(circ, dev))()
 
         def state_circ():
             prep()
             return qp.state()
         psi = np.asarray(qp.QNode(state_circ, qp.device("default.qubit", wires=2))())
-        rho = np.outer(psi, psi.conj())
+        # the state with its tensor factors in the order of ws (factor i = wire ws[i])
+        psi_w = np.transpose(psi.reshape(2, 2), axes=list(ws)).reshape(4)
+        rho = np.outer(psi_w, psi_w.conj())
+
+        def op_on(word):
+            non_id = [{"X": qp.X, "Y": qp.Y, "Z": qp.Z}[ch](ws[i]) for i, ch in enumerate(word) if ch != "I"]
+            return non_id[0] if len(non_id) == 1 else qp.prod(*non_id)
         # outcome frequencies per recipe against the Born probabilities (6 sigma), then the estimator against the exact expectation values
         for r in itertools.product((0, 1, 2), repeat=2):
             sel = np.all(recipes == np.array(r), axis=1)
@@ -386,17 +393,20 @@ def build(tier, seed):
                 f = float(np.mean(np.all(bits[sel] == np.array(b), axis=1)))
                 if abs(f - p) > 6 * np.sqrt(max(p * (1 - p), 1e-4) / m):
                     return refuted("device outcome frequencies deviate from the Born probabilities of the recipe's basis by more than 6 sigma",
-                                   dict(recipe=list(r), outcome=list(b), shots_with_recipe=m), f, p)
-        sh = qp.ClassicalShadow(bits, recipes)
+                                   dict(wires=list(ws), recipe=list(r), outcome=list(b), shots_with_recipe=m), f, p)
+        sh = qp.ClassicalShadow(bits, recipes, wire_map=list(ws))
         for word in ("XI", "IY", "ZZ", "YX", "XZ"):
-            est = float(np.asarray(sh.expval(op_of(word), k=1)))
-            ex = float(np.real(np.trace(rho @ np.asarray(qp.matrix(op_of(word), wire_order=[0, 1])))))
+            est = float(np.asarray(sh.expval(op_on(word), k=1)))
+            ex = float(np.real(np.trace(rho @ np.asarray(qp.matrix(op_on(word), wire_order=list(ws))))))
             k_loc = sum(ch != "I" for ch in word)
             if abs(est - ex) > 6 * np.sqrt(3 ** k_loc / T):
-                return refuted("shadow estimate deviates from the exact expectation value by more than 6 sigma", dict(observable=word, shots=T), est, ex)
-        return Outcome(DISCHARGED, "device-run(statistical, 6 sigma)", f"{T} shots, 9 recipes x 4 outcomes, 5 observables")
-    plan.add(ob("C60/sampling:_measure_classical_shadow/born-statistics+estimates[30000 shots, 6 sigma]", device_statistics, (DFILE, "_measure_classical_shadow"),
+                return refuted("shadow estimate deviates from the exact expectation value by more than 6 sigma", dict(wires=list(ws), observable=word, shots=T), est, ex)
+        return Outcome(DISCHARGED, "device-run(statistical, 6 sigma)", f"{T} shots, 9 recipes x 4 outcomes, 5 observables, wires {list(ws)}")
+    plan.add(ob("C60/sampling:_measure_classical_shadow/born-statistics+estimates[30000 shots, 6 sigma]", lambda: device_statistics((0, 1)), (DFILE, "_measure_classical_shadow"),
                 "seeded device shadow: outcome frequencies per recipe match <b|U rho U^dagger|b>, estimates within 6 sigma of tr(rho P)", bounded=True, timeout=1200))
+    # wires listed in non-ascending order: column i of bits / recipes must still belong to wires[i] (independent seed C60_3)
+    plan.add(ob("C60/sampling:_measure_classical_shadow/born-statistics+estimates[wires=[1,0], 30000 shots, 6 sigma]", lambda: device_statistics((1, 0)),
+                (DFILE, "_measure_classical_shadow"), "as above with classical_shadow(wires=[1, 0])", bounded=True, timeout=1200))
     plan.fn_under_contract(MFILE, "ClassicalShadowMP.process_state_with_shots")
     plan.fn_under_contract(DFILE, "_measure_classical_shadow")
     return plan
